@@ -217,6 +217,11 @@ pub fn run_check(sc: &dyn Scenario, tier: Tier) -> Report {
         }
     }
     ev.extra.insert("failing_runs_total".into(), json!(total_failing_runs));
+    let d = crate::dict::dict();
+    ev.extra.insert(
+        "source_dictionary".into(),
+        json!({"what": "integer literals (with their +-1 neighbours) and string literals of the sources of the crate under test, offered to the workload generators", "numbers": d.nums.len(), "strings": d.strs.len()}),
+    );
     ev.extra.insert("violation_signatures".into(), json!(reported.keys().collect::<Vec<_>>()));
     let wall = t0.elapsed().as_secs_f64();
     if let Err(e) = ev.write(&st, wall, n_viol, n_known) {
